@@ -19,24 +19,24 @@ let dump (m : mm) : string =
   let (es, n) = m in
   let b = Buffer.create 256 in
   Buffer.add_string b (Printf.sprintf "n=%s kc=%s " (zs (get_count m)) (zs (get_key_count m)));
-  let sorted = List.sort (fun e1 e2 -> compare (key_int e1) (key_int e2)) es in
-  List.iter (fun e ->
+  let sorted = Stdlib.List.sort (fun e1 e2 -> compare (key_int e1) (key_int e2)) es in
+  Stdlib.List.iter (fun e ->
     Buffer.add_string b (Printf.sprintf "{%s:%s:%s:%s}" (zs e.ekey) (zs e.etag) (repr_str (fst e.earr))
-      (String.concat "," (List.map zs (evals e))))) sorted;
+      (String.concat "," (Stdlib.List.map zs (evals e))))) sorted;
   Buffer.add_string b " T=";
   (* traversal of the model (iterator with pvMove), grouped by key like the harness: stable sort by key *)
   let tr = traverse m in
-  let tr = List.stable_sort (fun (k1, _) (k2, _) -> compare (int_of_z k1) (int_of_z k2)) tr in
-  List.iter (fun (k, v) -> Buffer.add_string b (Printf.sprintf "(%s,%s)" (zs k) (zs v))) tr;
+  let tr = Stdlib.List.stable_sort (fun (k1, _) (k2, _) -> compare (int_of_z k1) (int_of_z k2)) tr in
+  Stdlib.List.iter (fun (k, v) -> Buffer.add_string b (Printf.sprintf "(%s,%s)" (zs k) (zs v))) tr;
   Buffer.contents b
 
 let run_mm (mfast : coq_Z) (ops : string list) : string =
   let s = ref st_empty in
   let recs = ref [] in
-  List.iter (fun tok ->
+  Stdlib.List.iter (fun tok ->
     let w = split_on ',' tok in
-    let c = (List.hd w).[0] in
-    let a = Array.of_list (List.map z_of_string (List.tl w)) in
+    let c = (Stdlib.List.hd w).[0] in
+    let a = Array.of_list (Stdlib.List.map z_of_string (Stdlib.List.tl w)) in
     let cur = fst !s in
     let es = fst cur in
     let both = ref false in
@@ -49,17 +49,17 @@ let run_mm (mfast : coq_Z) (ops : string list) : string =
                 | Some _ -> apply (OAddAt (a.(0), a.(1))); Printf.sprintf "it(%s,%s)" (zs a.(0)) (zs a.(1)))
       | 'i' -> apply (OInsertKey (a.(0), a.(1)));
                (match find a.(0) (fst (fst !s)) with
-                | Some e -> Printf.sprintf "key(%s,%s,%d)" (zs e.ekey) (zs e.etag) (List.length (evals e))
+                | Some e -> Printf.sprintf "key(%s,%s,%d)" (zs e.ekey) (zs e.etag) (Stdlib.List.length (evals e))
                 | None -> "key(?)")
       | 'r' | 'R' ->
                let i = int_of_z a.(1) in
                (match find a.(0) es with
                 | None -> "skip"
-                | Some e -> if i >= List.length (evals e) then "skip" else begin
+                | Some e -> if i >= Stdlib.List.length (evals e) then "skip" else begin
                     apply (ORemove (a.(0), nat_of_int i));
                     match find a.(0) (fst (fst !s)) with
                     | Some e' -> let vs = evals e' in
-                        if i < List.length vs then Printf.sprintf "it(%s,%s)" (zs a.(0)) (zs (List.nth vs i)) else "nx"
+                        if i < Stdlib.List.length vs then Printf.sprintf "it(%s,%s)" (zs a.(0)) (zs (Stdlib.List.nth vs i)) else "nx"
                     | None -> "lost" end)
       | 'p' -> let before = get_count cur in
                apply (ORemoveIf (lin_pred a.(0) a.(1) a.(2) a.(3)));
@@ -70,7 +70,7 @@ let run_mm (mfast : coq_Z) (ops : string list) : string =
                Printf.sprintf "rk%s" (zs (BinInt.Z.sub before (get_count (fst !s))))
       | 'K' -> (match find a.(0) es with
                 | None -> "skip"
-                | Some e -> apply (ORemoveKey a.(0)); Printf.sprintf "rk%d" (List.length (evals e)))
+                | Some e -> apply (ORemoveKey a.(0)); Printf.sprintf "rk%d" (Stdlib.List.length (evals e)))
       | 't' -> (match find a.(0) es with None -> "skip" | Some _ -> apply (OResetKey (a.(0), a.(1))); "ok")
       | 'c' -> apply OClear; "ok"
       | 's' -> apply OSwap; both := true; "ok"
@@ -80,9 +80,67 @@ let run_mm (mfast : coq_Z) (ops : string list) : string =
       | _ -> "?" in
     let r = ret ^ ";" ^ dump (fst !s) ^ (if !both then ";" ^ dump (snd !s) else "") in
     recs := r :: !recs) ops;
-  String.concat "|" (List.rev !recs)
+  String.concat "|" (Stdlib.List.rev !recs)
+
+(* ------------------------------------------------------------------ wrapper *)
+open WrapperModel
+let run_um (mfast : coq_Z) (kprobe : int) (ops : string list) : string =
+  let s = ref st_empty in
+  let recs = ref [] in
+  let offset es k =
+    let rec go es acc = match es with
+      | [] -> acc
+      | e :: r -> if int_of_z e.ekey = k then acc else go r (acc + Stdlib.List.length (evals e)) in
+    go es 0 in
+  Stdlib.List.iter (fun tok ->
+    let w = split_on ',' tok in
+    let c = (Stdlib.List.hd w).[0] in
+    let a = Array.of_list (Stdlib.List.map z_of_string (Stdlib.List.tl w)) in
+    let cur = fst !s in
+    let n = int_of_z (get_count cur) in
+    let setcur m = s := (m, snd !s) in
+    let cnt k = int_of_nat (w_count cur k) in
+    let range x y = match w_erase_range mfast cur (nat_of_int x) (nat_of_int y) with
+      | ErOk m -> setcur m; "ok"
+      | ErThrow -> "throw" in
+    let ret = match c with
+      | 'i' -> setcur (w_insert mfast cur a.(0) a.(1)); "ok"
+      | 'e' -> let m = w_erase_key mfast cur a.(0) in
+               let r = Printf.sprintf "n%s" (zs (BinInt.Z.sub (get_count cur) (get_count m))) in setcur m; r
+      | 'x' -> let i = int_of_z a.(1) in
+               if i >= cnt a.(0) then "skip" else (setcur (w_erase_at mfast cur a.(0) (nat_of_int i)); "ok")
+      | 'q' -> let k = a.(0) in
+               if cnt k = 0 then range n n
+               else let off = offset (fst cur) (int_of_z k) in range off (off + cnt k)
+      | 'g' -> let k = a.(0) in let i = int_of_z a.(1) in let j = int_of_z a.(2) in
+               if not (i < j && j <= cnt k) then "skip"
+               else let off = offset (fst cur) (int_of_z k) in range (off + i) (off + j)
+      | 'w' -> range 0 n
+      | 'f' -> let m = w_erase_if mfast cur (lin_pred a.(0) a.(1) a.(2) a.(3)) in
+               let r = Printf.sprintf "n%s" (zs (BinInt.Z.sub (get_count cur) (get_count m))) in setcur m; r
+      | 'c' -> setcur (w_clear mfast cur); "ok"
+      | 'y' -> s := step mfast !s OCopyTo; "ok"
+      | 'Y' -> s := step mfast !s OCopyFrom; "ok"
+      | 's' -> s := step mfast !s OSwap; "ok"
+      | _ -> "?" in
+    let cur = fst !s in
+    let b = Buffer.create 128 in
+    Buffer.add_string b (Printf.sprintf "%s;sz=%s c=" ret (zs (w_size cur)));
+    for k = 0 to kprobe - 1 do
+      Buffer.add_string b ((if k > 0 then "," else "") ^ string_of_int (int_of_nat (w_count cur (z_of_int k))))
+    done;
+    Buffer.add_string b " er=";
+    for k = 0 to kprobe - 1 do
+      let vs = Stdlib.List.sort compare (Stdlib.List.map int_of_z (w_equal_range cur (z_of_int k))) in
+      if vs <> [] then Buffer.add_string b (Printf.sprintf "%d:%s;" k (String.concat "," (Stdlib.List.map string_of_int vs)))
+    done;
+    let tf x = if x then "T" else "F" in
+    Buffer.add_string b (Printf.sprintf " eq=%s%s" (tf (w_eq cur (snd !s))) (tf (w_eq (snd !s) cur)));
+    recs := Buffer.contents b :: !recs) ops;
+  String.concat "|" (Stdlib.List.rev !recs)
 
 let () = iter_lines (fun line ->
   match words line with
   | "mm" :: _bucket :: m :: _vt :: _hm :: ops -> print_endline (run_mm (z_of_string m) ops)
+  | "um" :: _bucket :: m :: _hm :: k :: ops -> print_endline (run_um (z_of_string m) (int_of_string k) ops)
   | _ -> print_endline "?")
